@@ -99,10 +99,22 @@ def c11(tier):
     q = tier == "quick"
     t0 = time.time()
     v, cov, _ = conc.run_conc_check("C11", tier, 800 if q else 30000, 150 if q else 4000, race=True)
+    v2, cov2 = conc.run_share("C11", tier, 60 if q else 2000, nconn=6, race=True)
+    cov["shared"] = cov2
+    for k in ("states", "transitions", "traces_validated_against_impl"):
+        cov[k] += cov2[k]
+    v += v2
     core.write_evidence("C11", tier, "model_checking", cov, time.time() - t0, len(v), BASE_ASSUME + CONC_ASSUME)
     for x in v:
         print("VIOLATION property=C11 replay=%s" % x, flush=True)
     return 1 if v else 0
+
+
+def _share_extra(pid, tier, count):
+    def f():
+        v, cov = conc.run_share(pid, tier, count, nconn=6, race=True)
+        return v, cov, 0
+    return f
 
 
 def c19(tier):
@@ -110,7 +122,7 @@ def c19(tier):
     return writer.run_writer_check("C19", tier, [
         dict(mc=(W, wcfg("prepared", q)), max_progs=2500 if q else 40000),
         dict(mc=(W, wcfg("prepared", q)), inter=(500 if q else 10000, 3)),
-    ], assumptions=BASE_ASSUME)
+    ], assumptions=BASE_ASSUME + CONC_ASSUME, extra=_share_extra("C19", tier, 40 if q else 1500))
 
 
 def c20(tier):
@@ -124,7 +136,7 @@ def c20(tier):
         dict(mc=(W, wcfg("fault", q)), max_progs=60 if q else 2000, allk=True, bset=[7, 16, 126, 1024], filt=nf),
         dict(mc=(W, wcfg("conform", q)), inter=(500 if q else 10000, 2), filt=pool),
         dict(mc=(W, wcfg("invalid", q)), inter=(300 if q else 5000, 3), filt=pool),
-    ], assumptions=BASE_ASSUME)
+    ], assumptions=BASE_ASSUME + CONC_ASSUME, extra=_share_extra("C20", tier, 40 if q else 1500))
 
 
 TABLE = {"C01": c01, "C02": c02, "C03": c03, "C04": c04, "C05": c05, "C06": c06, "C08": c08, "C09": c09, "C10": c10, "C11": c11, "C19": c19, "C20": c20}
